@@ -116,6 +116,15 @@ let dispatch (cmd : string) (args : sx list) : sx =
         | [i; o; a; m] -> { o_in = list_ z_ i; o_out = list_ z_ o; o_act = list_ bool_ a; o_mat = list_ (list_ nat_) m }
         | _ -> failwith "obs" in
       w_nat (coding_verdict (settings_ st) (existence_ e) (list_ nat_ nopts) (list_ obs_ tbl))
+  | "conn_sets", [specs; inst; cc] | "edges_valid", [specs; inst; cc; _] ->
+      let centry_ x = match lst x with
+        | [A "single"; n] -> Single (n_ n) | [A "group"; g; ms] -> Group (n_ g, list_ n_ ms) | _ -> failwith "centry" in
+      let cc_ x = match lst x with
+        | [i; s; t; ex] -> { cc_id = n_ i; cc_src = list_ centry_ s; cc_tgt = list_ centry_ t; cc_excl = list_ (pair_ n_ n_) ex }
+        | _ -> failwith "cchoice" in
+      let specs = list_ (pair_ n_ cnode_) specs and inst = list_ n_ inst and cc = cc_ cc in
+      if cmd = "conn_sets" then w_list (w_list (w_pair w_n w_n)) (conn_sets specs inst cc)
+      else w_bool (edges_valid specs inst cc (list_ (pair_ n_ n_) (List.nth args 3)))
   | _ -> Dispatch2.dispatch cmd args
 
 let () =
